@@ -56,9 +56,14 @@ PLANS = {
         "level": "fault_enumeration",
         "floors": {"quick": {"inspections": 20000, "histories_with_runtime_fault": 200},
                    "thorough": {"inspections": 1000000, "histories_with_runtime_fault": 10000}},
+        "technique": "runtime invariant monitor at every command boundary (public read API), fault-sequence injection",
+        "level_text": "Generated command histories with injected run-time faults (panicking rule next to unioning rules, :no-merge conflict, failing primitive, failed lookup) are executed on the real engine; after every single command, Ok or Err, the monitor recomputes key uniqueness, id canonicity, congruence and container uniqueness from the public read API. Serial and 4-thread/cut-off-0 configurations.",
+        "level_note": "Trusts the public read API (constructor_enodes/function_entries/value_to_class_id/inner_values) to report what is stored; hidden helper tables are not inspected; reach is bounded by the generator's grammar.",
         "assumptions": [
             "invariants are recomputed from the public read API (functions_iter, constructor_enodes, function_entries, value_to_class_id, container inner_values)",
             "hidden (compiler-generated) tables are not inspected",
         ],
     },
 }
+
+NOT_APPLICABLE = {}
